@@ -607,6 +607,52 @@ def _fmt_class(pts):
     return ', '.join(runs)
 
 
+def _valid_by_set(m, F, R, f, cons):
+    """`valid` decided with a set of the final bytes: <SET>.isdisjoint(self.<text>) (SET a module-level constant that folds to a set of
+    one-character strings).  Exact iff the set is {chr(0x40) .. chr(0x7E)}."""
+    calls = [n for n in f.walk() if isinstance(n, ast.Call) and isinstance(n.func, ast.Attribute) and n.func.attr == 'isdisjoint' and len(n.args) == 1]
+    if len(calls) != 1:
+        return False
+    call = calls[0]
+    a, b = call.func.value, call.args[0]
+    text = next((x for x in (a, b) if re.match(r'^self\.\w+$', norm(x))), None)
+    other = b if text is a else a
+    if text is None:
+        return False
+    if isinstance(other, ast.Call) and call_name(other) in ('set', 'frozenset') and other.args:
+        other_v = other
+    else:
+        other_v = other
+    try:
+        val = F.fold(other_v) if not isinstance(other_v, ast.Name) else F.env.get(other_v.id, None)
+        if val is None and isinstance(other_v, ast.Name):
+            node = m.const('ansi_format', other_v.id)
+            val = F.fold(node) if node is not None else None
+    except Unfoldable:
+        val = None
+    if not isinstance(val, (frozenset, set, list, tuple, str)):
+        R.undecided(f, call, 'the set %s could not be folded' % short(other), construct=cons)
+        return True
+    pts = set()
+    for x in val:
+        if not (isinstance(x, str) and len(x) == 1):
+            R.undecided(f, call, 'the set %s does not consist of single characters' % short(other), construct=cons)
+            return True
+        pts.add(ord(x))
+    # polarity: valid = isdisjoint(...)
+    par = getattr(call, '_parent', None)
+    neg = isinstance(par, ast.UnaryOp) and isinstance(par.op, ast.Not)
+    holder = getattr(par, '_parent', None) if neg else par
+    if neg or not isinstance(holder, (ast.Assign, ast.Return)):
+        R.undecided(f, call, 'how the isdisjoint() result decides validity is not recognised', construct=cons)
+        return True
+    want = set(range(0x40, 0x7F))
+    R.check(pts == want, f, call, 'valid iff the text shares no character with {chr(0x40) .. chr(0x7E)}',
+            'the set of final bytes is %s, the range is 0x40..0x7E inclusive%s' % (
+                _fmt_class(pts), ': 0x7E ("~") is missing -- range() excludes its upper bound' if want - pts == {0x7E} else ''), construct=cons)
+    return True
+
+
 @rule('F1', 'term-range: the byte classes of AnsiSetting.valid and of the tokenizer are exactly [0x40, 0x7E]', floor=2)
 def F1(m, R):
     F = get_folder(m)
@@ -618,7 +664,7 @@ def F1(m, R):
     from ..shapes import reject_predicate, local_aliases
     from ..shapes import subst as _subst2
     rp = reject_predicate(f)
-    if rp is None and _valid_by_regex(m, F, R, f, cons):
+    if rp is None and (_valid_by_regex(m, F, R, f, cons) or _valid_by_set(m, F, R, f, cons)):
         pass
     elif rp is None:
         R.undecided(f, f.node, 'per-character rejection not found', construct=cons)
